@@ -34,6 +34,10 @@ PRIMS = {
     # POSIX record locks: owned by the process (no exclusion between two descriptors / two store objects of one process) and
     # dropped as soon as the process closes ANY descriptor of the file - not the advisory lock the cid list protocol relies on
     "fcntl.lockf": ("LOCKF", (0,), True),
+    # length changes through a descriptor / path (not through writing the data): judged by C01.e / C09 on temp files
+    "os.posix_fallocate": ("SETLEN", (0,), True),
+    "os.ftruncate": ("SETLEN", (0,), True),
+    "os.truncate": ("SETLEN", (0,), True),
     "fcntl.fcntl": ("LOCKF", (0,), True),
     "atexit.register": ("OTHER", (), False),
     "os.register_at_fork": ("OTHER", (), False),   # hooks: judged by rule C16.g (what the callbacks touch)
